@@ -197,6 +197,30 @@ class Case:
         return lines
 
 
+
+def _sdiv_by_min_signed(prog: Any) -> bool:
+    """does the program divide (sdiv/srem) by a constant that is the minimum signed value of its width?"""
+    consts: dict[Any, tuple[str, int]] = {}
+    hit = False
+
+    def walk(x: Any) -> None:
+        nonlocal hit
+        if isinstance(x, (list, tuple)):
+            if len(x) >= 4 and x[0] == "const" and isinstance(x[3], int) and isinstance(x[2], str) and x[2].startswith("i"):
+                consts[x[1]] = (x[2], x[3])
+            if len(x) >= 7 and x[0] == "bin" and x[1] in ("sdiv", "srem"):
+                c = consts.get(x[5])
+                if c is not None and c[0][1:].isdigit():
+                    w = int(c[0][1:])
+                    if c[1] % (1 << w) == 1 << (w - 1):
+                        hit = True
+            for y in x:
+                walk(y)
+
+    walk(prog)
+    return hit
+
+
 def check_case(ctx: core.Ctx, c: Case, out: list[str], record: bool = True) -> dict[str, Any]:
     """Compare one case's observations (real backend, LLVM, JIT) with the reference and the Lean answers
     `out` (one per line of c.lean_lines()).  Returns the verdicts; reports to ctx when `record`."""
@@ -274,6 +298,12 @@ def check_case(ctx: core.Ctx, c: Case, out: list[str], record: bool = True) -> d
         got = jit.call(inp)
         v["jit_runs"] += 1
         v["nontrivial"] += 1
+        if got != ref[2] and lean_i == rs and _sdiv_by_min_signed(prog):
+            # external: the emitted IR is right by the LangRef model (it agrees with the source on this input) and only
+            # LLVM's code generator disagrees -- `sdiv exact x, INT_MIN` is turned into `ashr exact x, w-1` (-1 instead
+            # of 1 for x = INT_MIN).  Not a property of xDSL's translation: counted, not judged.
+            ctx.count("external.llvm_codegen_sdiv_exact_by_min_signed")
+            continue
         if got != ref[2]:
             kind = v.get("diff", ("func",))[0]
             fail(site_of(kind) if "diff" in v else "xdsl.backend.llvm.convert.convert_module",
